@@ -633,7 +633,7 @@ int vnacal_save(vnacal_t *vcp, const char *pathname)
 
     if ((fp = fopen(pathname, "w")) == NULL) {
 	_vnacal_error(vcp, VNAERR_SYSTEM, "fopen: %s: %s",
-		vcp->vc_filename, strerror(errno));
+		pathname, strerror(errno));
 	return -1;
     }
     free((void *)vcp->vc_filename);
